@@ -94,8 +94,9 @@ func (b *Batch) Put(key []byte, value []byte) error {
 		b.cachedDataSize += newSize
 	} else {
 		// 如果缓存命中则直接修改缓存
-		logRecord.Key = key
-		logRecord.Value = value
+		// 之前可能被标记为删除, 重新写入后应恢复为正常记录
+		logRecord.Type = datafile.LogRecordNormal
+		logRecord.Value = append(logRecord.Value[:0], value...)
 		b.cachedDataSize += newSize - oldSize
 	}
 	return nil
